@@ -302,14 +302,37 @@ class Engine:
         try: v = st.frames[f].locals[l]
         except KeyError: raise Inconclusive(f'read of unset local _{l} in {st.frames[f].body.name}')
         for k in p:
-            if isinstance(v, VecV) and not v.is_dense(): raise Inconclusive('index into guarded Vec')
             try: v = v.items[k]
             except (IndexError, AttributeError): raise Inconclusive(f'bad path {p} into {type(v).__name__} (_{l} of {st.frames[f].body.name})')
         return v
-    def read(s, st, fr, place): return s.read_at(st, *s.resolve(st, fr, place))
+    def read(s, st, fr, place):
+        """value of a place; goes through symbolic references (RefIte) by reading both targets"""
+        if isinstance(place, Local):
+            try: return st.frames[fr].locals[place.n]
+            except KeyError: raise Inconclusive(f'read of unset local _{place.n} in {st.frames[fr].body.name}')
+        if isinstance(place, Deref): return s.deref1(st, s.read(st, fr, place.base))
+        v = s.read(st, fr, place.base)
+        if isinstance(place, Downcast): return v
+        if isinstance(place, Field): k = place.idx
+        elif isinstance(place, Index):
+            k = place.idx if isinstance(place.idx, int) else s.read(st, fr, place.idx)
+            if isz(k):
+                k = z3.simplify(k)
+                if z3.is_int_value(k): k = k.as_long()
+                else: raise Inconclusive('symbolic index')
+            k = int(k)
+        else: raise NotImplementedError(place)
+        if isinstance(v, VecV) and not v.is_dense(): raise Inconclusive('index into guarded Vec')
+        try: return v.items[k]
+        except (IndexError, AttributeError): raise Inconclusive(f'bad projection {k} into {type(v).__name__} in {st.frames[fr].body.name}')
+    def deref1(s, st, r):
+        if isinstance(r, RefV): return s.read_ref(st, r)
+        if isinstance(r, BoxV): return r.items[0]
+        if isinstance(r, RefIte): return ite(r.c, s.deref1(st, r.a), s.deref1(st, r.b))
+        raise Inconclusive(f'deref of {type(r).__name__}')
     def read_ref(s, st, r): return s.read_at(st, r.frame, r.local, r.path)
     def deref(s, st, r):
-        while isinstance(r, RefV): r = s.read_ref(st, r)
+        while isinstance(r, (RefV, RefIte)): r = s.deref1(st, r)
         return r
     def write_at(s, st, f, l, p, val):
         if not p: st.frames[f].locals[l] = val; return
@@ -465,6 +488,7 @@ class Engine:
                     if not v.is_dense(): raise Inconclusive('len of guarded Vec')
                     return len(v.ents)
                 if isinstance(v, Agg): return len(v.items)
+                if isinstance(v, Opaque) and v.kind == 'verts': return z3.Int(f'nverts_{v.name}')      # length of an opaque vertex buffer: a symbolic count per mesh
                 raise Inconclusive('PtrMetadata of ' + type(v).__name__)
             raise NotImplementedError(rv.op)
         if isinstance(rv, Discr):
